@@ -30,6 +30,7 @@ func TestGovcReplay(t *testing.T) {
 	}
 	sets = append(sets, long)
 	sets = append(sets, []*option.Option{mk("größenänderungsmaß", false), mk("файлы", true, "ф")})
+	sets = append(sets, []*option.Option{mk("файлы-каталог-настройки", false), mk("x", false)})
 	for si, opts := range sets {
 		var syn, list string
 		func() {
